@@ -515,6 +515,60 @@ def check(ctx):
     if n9 < 4:
         raise AnalysisError('C06.R9 found only %d configuration sites' % n9)
 
+    # ---- R10: REAL.  X.696 12: a REAL whose inner subtype constraint fixes base 2 and keeps mantissa and exponent inside the binary32 (binary64) windows is sent as the 4 (8)
+    #      octets of the IEEE 754 value; every other REAL uses the length-prefixed X.690 form.  The constructor's decision is evaluated (sa/evalexpr.py) on a grid of
+    #      WITH COMPONENTS constraints -- including bounds that are 0 -- and compared with the table of the standard.
+    ctx.rule('C06.R10', 'REAL: the fixed-size IEEE 754 forms are selected exactly for the mantissa / base / exponent windows of X.696 12 (constructor evaluated on a grid)')
+    from .. import evalexpr as _ev
+    rcls = model.mod(OER).classes.get('Real')
+    rinit = rcls.methods.get('__init__') if rcls else None
+    if rinit is None:
+        raise AnalysisError('oer.Real.__init__ vanished')
+    rp = [p_ for p_ in flow.param_names(rinit) if p_ != 'self']
+    M32, M64 = 2 ** 24 - 1, 2 ** 53 - 1
+    mants = [(0, 100), (-100, 0), (0, 0), (-M32, M32), (0, M32), (-M32 - 1, 0), (0, M32 + 1), (-M64, M64), (0, M64), (0, M64 + 1), (-M64 - 1, 0), (5, 5)]
+    exps = [(-149, 104), (0, 104), (-149, 0), (0, 0), (-10, 10), (-150, 0), (0, 105), (-1074, 971), (0, 971), (-1074, 0), (-1075, 0), (0, 972), (3, 3)]
+    n_ok = n_und = 0
+    bad = None
+    und = ''
+    cases = [(None, None)]
+    for mt in mants:
+        for ex in exps:
+            for base in (2, 10):
+                cases.append(([('mantissa', mt), ('base', base), ('exponent', ex)], (mt, base, ex)))
+    for wc, key in cases:
+        if key is None:
+            want = (None, None)
+        else:
+            mt, base, ex = key
+            if base == 2 and -M32 <= mt[0] and mt[1] <= M32 and -149 <= ex[0] and ex[1] <= 104:
+                want = (4, '>f')
+            elif base == 2 and -M64 <= mt[0] and mt[1] <= M64 and -1074 <= ex[0] and ex[1] <= 971:
+                want = (8, '>d')
+            else:
+                want = (None, None)
+        try:
+            _r, env_ = _ev.run_function(rinit, {rp[0]: 'a', rp[1]: wc}, skip_super=True)
+        except (_ev.Unsupported, _ev.Raised) as e_:
+            n_und += 1
+            und = und or str(e_)[:80]
+            continue
+        got = (env_.get('self.length'), env_.get('self.fmt'))
+        if isinstance(got[1], str) and got[1][-1:] in 'fd' and want[1] is not None:
+            got = (got[0], '>' + got[1][-1])          # byte-order spelling ('!f') is the same format
+        if got == want:
+            n_ok += 1
+        elif bad is None:
+            bad = (key, got, want)
+    ctx.instance('C06.R10', 'oer.Real.__init__ on %d WITH COMPONENTS constraints (%d undecided)' % (n_ok + (1 if bad else 0), n_und), 'VIOLATION' if bad else ('ok' if n_ok > n_und else 'undecided'), und,
+                 nontrivial=n_ok > n_und, node=rinit, file=OER)
+    if bad:
+        key, got, want = bad
+        ctx.violation('C06.R10', OER, rinit, Model.qual(rinit),
+                      'REAL (WITH COMPONENTS {mantissa (%s..%s), base (%s), exponent (%s..%s)}) is given length %s / format %r; X.696 12 prescribes %s: the encoder emits other octets than a '
+                      'conforming OER peer expects' % (key[0][0], key[0][1], key[1], key[2][0], key[2][1], got[0], got[1],
+                                                     ('the %d-octet IEEE 754 form' % want[0]) if want[0] else 'the length-prefixed form'), stmt='REAL fixed-size decision')
+
 
 MUTANTS = [
     dict(name='unsigned 2-octet boundary <= 65536', file=OER, quick=True, old="            elif maximum < 65536:", new="            elif maximum <= 65536:", expect='C06.R1'),
